@@ -284,6 +284,8 @@ def build_args(call):
         kw["request"] = make_dict(req_cls, unb64(call["request_b64"]))
     elif mode == "request-native-dict":          # (C03)
         kw["request"] = make_native_dict(req_cls, unb64(call["request_b64"]))
+    elif mode == "request-literal-dict":         # (C12) the dict a caller writes by hand, NOT derived from bytes through the generated class
+        kw["request"] = call["request_literal"]  # (a wrongly bound field type cannot hide in unknown fields)
     elif mode == "request-none":
         pass
     if mode in ("kwargs", "mixed"):
@@ -433,9 +435,22 @@ def op_grpc_session(o):
                     res = {"ok": consume_sync(ret, call.get("consume", "value"))}
                     if rb is not None:
                         res["request_bool"] = rb
+                    if call.get("again_same_args"):      # (C07) a second call with the SAME argument objects (programs, not single calls)
+                        mid = len(srv.log)
+                        if call.get("script"):
+                            with srv.lock:
+                                for p, q in call["script"].items():
+                                    srv.script[p] = list(q)
+                        try:
+                            ret2 = getattr(client, call["method"])(*args, **kw)
+                            res["again"] = {"ok": consume_sync(ret2, call.get("consume", "value"))}
+                        except BaseException as e:  # noqa
+                            res["again"] = {"raised": exc_name(e), "msg": str(e)[:300]}
+                        res["again"]["server"] = _slice(srv.log, mid)
+                        res["server_first"] = srv.log[start:mid]
                 except BaseException as e:  # noqa
                     res = {"raised": exc_name(e), "msg": str(e)[:300], "trace": traceback.format_exc()[-600:]}
-                res["server"] = _slice(srv.log, start)
+                res["server"] = res.pop("server_first", None) or _slice(srv.log, start)
                 res["stubs"] = kinds[k0:]
                 res["sleeps"] = trap.sleeps[s0:]
                 if tmo is not None:
@@ -474,9 +489,25 @@ def op_grpc_session(o):
                         res = {"ok": await consume_async(ret, call.get("consume", "value"))}
                         if rb is not None:
                             res["request_bool"] = rb
+                        if call.get("again_same_args") and "requests" not in kw:      # (C07)
+                            mid = len(srv.log)
+                            if call.get("script"):
+                                with srv.lock:
+                                    for p, q in call["script"].items():
+                                        srv.script[p] = list(q)
+                            try:
+                                ret2 = getattr(client, call["method"])(*args, **kw)
+                                for _ in range(3):
+                                    if asyncio.iscoroutine(ret2) or hasattr(ret2, "__await__"):
+                                        ret2 = await ret2
+                                res["again"] = {"ok": await consume_async(ret2, call.get("consume", "value"))}
+                            except BaseException as e:  # noqa
+                                res["again"] = {"raised": exc_name(e), "msg": str(e)[:300]}
+                            res["again"]["server"] = _slice(srv.log, mid)
+                            res["server_first"] = srv.log[start:mid]
                     except BaseException as e:  # noqa
                         res = {"raised": exc_name(e), "msg": str(e)[:300], "trace": traceback.format_exc()[-600:]}
-                    res["server"] = _slice(srv.log, start)
+                    res["server"] = res.pop("server_first", None) or _slice(srv.log, start)
                     res["stubs"] = kinds[k0:]
                     res["sleeps"] = trap.sleeps[s0:]
                     if tmo is not None:
